@@ -114,13 +114,18 @@ def run_case(case):
     try:
         keynames = case.get("keynames", "bytes")
         dtss = bool(case.get("disable_terminal_start_stop")) and setup == "pty"
+        if case.get("keynames_enum"):
+            # the naming mode given as the enumeration member instead of its name
+            keynames_arg = {"bytes": events.Keynames.BYTES, "curtsies": events.Keynames.CURTSIES, "curses": events.Keynames.CURSES}[keynames]
+        else:
+            keynames_arg = keynames
         form = case.get("ctor_form", 0)  # the same construction spelt with keywords, positionally, or mixed
         if form == 1:
-            inp = ci.Input(stream, keynames, threshold, sigint_event, dtss)
+            inp = ci.Input(stream, keynames_arg, threshold, sigint_event, dtss)
         elif form == 2:
-            inp = ci.Input(stream, keynames, threshold, sigint_event=sigint_event, disable_terminal_start_stop=dtss)
+            inp = ci.Input(stream, keynames_arg, threshold, sigint_event=sigint_event, disable_terminal_start_stop=dtss)
         else:
-            inp = ci.Input(in_stream=stream, keynames=keynames, paste_threshold=threshold, sigint_event=sigint_event,
+            inp = ci.Input(in_stream=stream, keynames=keynames_arg, paste_threshold=threshold, sigint_event=sigint_event,
                            disable_terminal_start_stop=dtss)
         if form:
             res.label("positional_constructor_arguments")
@@ -706,6 +711,7 @@ def strategy():
             "overshoot": st.sampled_from([0.0, 0.0005, 0.0005]),
             "pre_enter_requests": st.lists(st.sampled_from([0, 0, 0.01]), max_size=2),
             "ctor_form": st.sampled_from([0, 0, 1, 2]),
+            "keynames_enum": st.booleans(),
             "disable_terminal_start_stop": st.booleans(),
             "typeahead": st.one_of(st.none(), st.none(), payload_strategy(6).map(lambda t: {"data": t[0].hex(), "tokens": t[1]})),
             "steps": st.lists(step, min_size=1, max_size=15),
